@@ -27,13 +27,20 @@ import (
 type c06prog struct {
 	Defs string
 	Cmds []string
+	Sep  string // between commands; "\n" when empty
 	// compiled lazily
 	whole *libvore.Vore
 	parts []*libvore.Vore
 	bad   bool
 }
 
-func (p *c06prog) source() string { return p.Defs + strings.Join(p.Cmds, "\n") }
+func (p *c06prog) source() string {
+	sep := p.Sep
+	if sep == "" {
+		sep = "\n"
+	}
+	return p.Defs + strings.Join(p.Cmds, sep)
+}
 
 func (p *c06prog) isReplace(j int) bool {
 	return strings.HasPrefix(strings.TrimSpace(p.Cmds[j]), "replace")
@@ -97,7 +104,7 @@ func (c *c06) Assumptions() []string {
 }
 
 func (c *c06) ProbeNames() []string {
-	return []string{"overwrite_with_longer_output", "overwrite_with_shorter_output", "new_with_stale_vored_longer_than_output", "replace_with_zero_matches_written", "file_listed_twice", "empty_file_replaced", "two_replace_commands_one_source", "file_larger_than_window_replaced", "op_after_earlier_write_op", "nothing_mode_replace", "find_only_program_in_write_mode", "vored_file_searched", "file_64k_or_more"}
+	return []string{"overwrite_with_longer_output", "overwrite_with_shorter_output", "new_with_stale_vored_longer_than_output", "replace_with_zero_matches_written", "file_listed_twice", "empty_file_replaced", "two_replace_commands_one_source", "file_larger_than_window_replaced", "op_after_earlier_write_op", "nothing_mode_replace", "find_only_program_in_write_mode", "vored_file_searched", "file_64k_or_more", "unmatched_stretch_over_64k"}
 }
 
 func (c *c06) SweepPrefix(string, uint64) []uint64 { return nil }
@@ -128,7 +135,7 @@ func (p *c06prog) compile() {
 	}
 }
 
-var c06words = []string{"banana", "ananas", "12-34", "x.x", "a1b22", "an", "a", "b", "xa", "Ban", "zzz", "nana", " ", "\n", "\t", "7", "x", "\r\n", "aaa", "ab", "50%", "%d an", "\"q\"", "a\\b", "é", "%s"}
+var c06words = []string{"banana", "ananas", "12-34", "x.x", "a1b22", "an", "a", "b", "xa", "Ban", "zzz", "nana", " ", "\n", "\t", "7", "x", "\r\n", "aaa", "ab", "50%", "%d an", "\"q\"", "a\\b", "é", "%s", "an\r\nb", "an\nb"}
 
 func c06content(t *Tape, size int) []byte {
 	var b []byte
@@ -227,10 +234,18 @@ func (c *c06) Run(ctx *RunCtx) *RunResult {
 		case 1:
 			sizes := []int{4095, 4096, 4097, 8193}
 			if t.Draw(40) == 1 {
-				sizes = []int{65536, 65537, 70001} // thousands of matches, far above the window
+				sizes = []int{65600, 66000, 70001} // thousands of matches, far above the window
 				ctx.Count("file_64k_or_more", 1)
 			}
 			content = c06bigContent(sizes[t.Draw(len(sizes))], uint64(t.Draw(1000)))
+			if len(content) > 60000 && t.Draw(2) == 1 {
+				// one stretch of more than 64 KiB in which nothing can match, then ordinary text
+				gap := 65537 + t.Range(0, 3)
+				for i := 0; i < gap && i < len(content)-40; i++ {
+					content[i] = 'Q'
+				}
+				ctx.Count("unmatched_stretch_over_64k", 1)
+			}
 		default:
 			content = c06content(t, t.Range(1, 160))
 		}
